@@ -51,6 +51,7 @@ let s_res (f : 'a -> string) (r : 'a res) =
 let s_ids l = String.concat "," (List.map s_idx1 l)
 let s_edge = function Start x -> "S" ^ s_idx1 x | End_ x -> "E" ^ s_idx1 x
 let s_edges l = String.concat "," (List.map s_edge l)
+let s_oedge = function Some e -> s_edge e | None -> "-"
 
 let hex_of_bytes (l : n list) =
   let b = Buffer.create 64 in
@@ -134,7 +135,9 @@ let q_iters (x : nid) : string =
     [ "i"; f "anc" (ancestors x a); f "pred" (predecessors x a); f "prec" (preceding_siblings x a);
       f "foll" (following_siblings x a); f "ch" (children x a); f "rch" (reverse_children x a);
       f "desc" (descendants x a); g "trav" (traverse x a); g "rtrav" (reverse_traverse x a);
-      g "nt" (traverse x a); g "pt" (reverse_traverse x a) ]
+      g "nt" (traverse x a); g "pt" (reverse_traverse x a);
+      (* one raw step that leaves the subtree: End(x).next_traverse and Start(x).prev_traverse *)
+      "n1=" ^ s_res s_oedge (next_traverse (End_ x) a); "p1=" ^ s_res s_oedge (prev_traverse (Start x) a) ]
 
 let process (line : string) : string option =
   let toks = String.split_on_char ' ' (String.trim line) in
@@ -349,6 +352,12 @@ let monitor (opsf : string) (obsf : string) (outf : string) =
            (* "remove deletes exactly x ... and nothing else changes": a bystander's payload is part of "nothing else" *)
            (match o with
             | (ORemove _ | ORemoveSubtree _) when ci = 41 -> report "C04" (Printf.sprintf "a removal changed the payload of a node it did not remove (clause %d) after %s" ci cmd)
+            (* a valid call that does not end as documented (clause 10: e.g. it panics) also breaks the property that
+               describes the call's effect *)
+            | (ORemove _ | ORemoveSubtree _) when ci = 10 -> report "C04" (Printf.sprintf "a removal of a live node did not succeed (clause %d) after %s" ci cmd)
+            | (OInsert _ | ODetach _ | OAppendValue _) when ci = 10 && not dead_arg -> report "C03" (Printf.sprintf "a possible insert / detach / append_value did not succeed (clause %d) after %s" ci cmd)
+            | ONew _ when ci = 10 -> report "C07" (Printf.sprintf "new_node did not succeed (clause %d) after %s" ci cmd)
+            | (OClear | OReserve _) when ci = 10 -> report "C13" (Printf.sprintf "clear / reserve did not succeed (clause %d) after %s" ci cmd)
             | OInsert (_, false, _, _) when ci = 20 || ci = 21 || ci = 22 -> report "C05" (Printf.sprintf "an unchecked insert that did not panic has an effect different from the checked form's documented effect (clause %d) after %s" ci cmd)
             | _ -> ());
            if dead_arg && (ci = 10 || ci = 11 || ci = 12) then report "C05" (Printf.sprintf "insert with a removed node mishandled (clause %d)" ci)) failed
@@ -468,7 +477,8 @@ let monitor (opsf : string) (obsf : string) (outf : string) =
                        "prec=" ^ so (spec_preceding a x); "foll=" ^ so (spec_following a x);
                        "ch=" ^ s_ids (spec_children a x); "rch=" ^ s_ids (List.rev (spec_children a x));
                        "desc=" ^ s_ids (spec_descendants a x); "trav=" ^ s_edges tr; "rtrav=" ^ s_edges (List.rev tr);
-                       "nt=" ^ s_edges tr; "pt=" ^ s_edges (List.rev tr) ] in
+                       "nt=" ^ s_edges tr; "pt=" ^ s_edges (List.rev tr);
+                       "n1=" ^ s_res s_oedge (next_traverse (End_ x) a); "p1=" ^ s_res s_oedge (prev_traverse (Start x) a) ] in
                    if want <> obs then begin
                      report "C09" ("traversal from " ^ s_id x ^ ": got [" ^ obs ^ "] expected [" ^ want ^ "]");
                      if String.length obs > 0 && (try ignore (Str.search_forward (Str.regexp_string "diverge") obs 0); true with Not_found -> false)
